@@ -64,3 +64,13 @@ pub(crate) use helpers::*;
 #[allow(unused_imports)]
 pub(crate) use helpers_32::*;
 pub(crate) use sanity::SideMetadataSanity;
+
+/// Verification hooks (see /verif/DESIGN.md): crate-private helpers made reachable.
+#[cfg(mmtk_verif)]
+pub mod verif {
+    pub use super::sanity::verif as sanity;
+    use super::SideMetadataSpec;
+    pub fn metadata_address_range_size(spec: &SideMetadataSpec) -> usize {
+        super::helpers::metadata_address_range_size(spec)
+    }
+}
